@@ -132,10 +132,11 @@ def spec(d, fixed_idx):
         return '[PauliZ %d]' % a[0]
     if cls == 'RSU3Gate':
         return '[RSU3 %d]' % a[0]
-    if cls == 'CKMGate':
-        return '[CKM]'
-    if cls == 'CKMdgGate':
-        return '[CKMdg]'
+    if cls in ('CKMGate', 'CKMdgGate'):
+        # two transcriptions of get_grad exist: the one of the pinned commit (proved NOT to be the
+        # derivative, C18_grad_CKM_refuted) and the repaired one of fixes/D14.patch (proved correct).
+        # The implementation must equal one of them; which one is decided by a finite-difference probe.
+        return '[%s%s]' % (cls[:-4], 'fixed' if _ckm_is_repaired(cls) else '')
     if cls in ('U1qPiGate', 'U1qPi2Gate'):
         n, dd = _frac(PI if cls == 'U1qPiGate' else PI / 2)
         return '[frozen [fixed %d] [[0 %d %d]]]' % (fixed_idx['U1qGate'], n, dd)
@@ -195,7 +196,91 @@ def input_class(d):
         return 'n=1' if a and a[0] == 1 else 'n>=2'
     if cls == 'FrozenParameterGate':
         return 'some_frozen' if d.get('frozen') else 'none_frozen'
+    if cls == 'ControlledGate':
+        try:
+            return 'constant_inner' if build(d['inner']).num_params == 0 else 'parameterized_inner'
+        except Exception:  # noqa
+            return None
+    if cls == 'PowerGate' and 'inner' in d:
+        try:
+            k = a[0] if a else d.get('kw', {}).get('power', 1)
+            if k == 0 and set(build(d['inner']).radixes) not in ({2}, {3}):
+                return 'power0_other_radixes'
+        except Exception:  # noqa
+            return None
+    if cls == 'EmbeddedGate':
+        try:
+            inner = build(d['inner'])
+            if inner.num_params == 0:
+                gr = np.asarray(inner.get_grad([]))
+                if gr.ndim != 3 and len(gr) > 0:
+                    return 'inner_grad_malformed'
+        except Exception:  # noqa
+            return None
     return None
+
+
+def _guessable(rx):
+    return set(rx) in ({2}, {3})
+
+
+_RC_CACHE: dict = {}
+
+
+def root_cause(d):
+    key = vf.canon(d)
+    if key not in _RC_CACHE:
+        _RC_CACHE[key] = _root_cause(d)
+    return _RC_CACHE[key]
+
+
+def _root_cause(d):
+    """If this description itself has the shape of a known root cause (known_findings.d/C18.json),
+    name it; used to keep consequences of a defective sub-gate out of the generated compositions."""
+    cls = d['cls']
+    try:
+        if cls in ('CKMGate', 'CKMdgGate', 'VariableLocationGate'):
+            return cls
+        if cls == 'ArbitraryCPhaseGate' and input_class(d) == 'other_radixes':
+            return 'ACP_other_radixes'
+        if cls == 'EmbeddedGate' and input_class(d) == 'inner_grad_malformed':
+            return 'embedded_over_malformed_grad'
+        if cls == 'ControlledGate' and 'inner' in d:
+            inner = build(d['inner'])
+            if inner.num_params == 0 and len(np.asarray(inner.get_grad([])).shape) != 3:
+                return 'controlled_over_1d_empty_grad'
+        if cls == 'PowerGate':
+            k = d['args'][0] if d['args'] else d.get('kw', {}).get('power', 1)
+            if k == 0 and not _guessable(build(d['inner']).radixes):
+                return 'power0_other_radixes'
+    except Exception:  # noqa
+        return None
+    return None
+
+
+def tainted(d):
+    """a strict sub-gate of d is a known root cause (d's own failures would be consequences)."""
+    x = d
+    while 'inner' in x:
+        x = x['inner']
+        if root_cause(x):
+            return True
+    return False
+
+
+def optimize_owner(d):
+    """the class whose optimize() is actually executed: Tagged/Dagger delegate to the inner gate."""
+    while d['cls'] in ('TaggedGate', 'DaggerGate') and 'inner' in d:
+        d = d['inner']
+    return d
+
+
+def _ckm_is_repaired(cls):
+    g = getattr(G(), cls)()
+    p = np.array([0.3, -0.7, 1.1, 0.9])
+    h = 1e-6
+    fd = np.array([(np.asarray(g.get_unitary(p + h * e)) - np.asarray(g.get_unitary(p - h * e))) / (2 * h) for e in np.eye(4)])
+    return bool(np.abs(fd - np.asarray(g.get_grad(p))).max() < 1e-6)
 
 
 def root_cls(d):
@@ -272,7 +357,7 @@ def composed_grid(ctx):
     inner_small = [D('U3Gate'), D('XGate'), D('RYGate'), D('HGate', 3), D('ShiftGate', 3), D('U2Gate'), D('TGate'),
                    D('CNOTGate'), D('RZZGate'), D('U8Gate'), D('ClockGate', 4), D('CSUMGate', 3), D('FSIMGate')]
     for (nc, cr, cl) in ctl_args:
-        inners = inner_small if nc == 1 else rng.sample(inner_small, ctx.n(4, 9))
+        inners = inner_small if nc == 1 else rng.sample(inner_small, min(len(inner_small), ctx.n(4, 9)))
         for inn in inners:
             g_rx = _radixes_of(inn)
             crs = [cr] * nc if isinstance(cr, int) else list(cr)
@@ -303,7 +388,7 @@ def composed_grid(ctx):
                       (D('DiagonalGate', 2), 3), (D('MPRYGate', 2), 2)]:
         subsets = [s for r in range(0, npar + 1) for s in itertools.combinations(range(npar), r)]
         if len(subsets) > 8:
-            subsets = rng.sample(subsets, ctx.n(8, 40))
+            subsets = rng.sample(subsets, min(len(subsets), ctx.n(8, 40)))
         for sub in subsets:
             ds.append(frozen(inn, {k: rng.choice(vals) for k in sub}))
     # --- EmbeddedGate
@@ -338,7 +423,82 @@ def composed_grid(ctx):
         wrap('PowerGate', wrap('PowerGate', D('RXGate'), 2), -2),
         wrap('ControlledGate', wrap('ControlledGate', D('XGate'), 1, 3, 1), 1, 2),
     ]
+    ds = [d for d in ds if not tainted(d)]
+    # --- the shapes of the known root causes (see known_findings.d/C18.json), kept explicit
+    ds += [
+        wrap('ControlledGate', D('HGate')), wrap('ControlledGate', wrap('PowerGate', D('XGate'), 2)),
+        wrap('EmbeddedGate', wrap('ControlledGate', D('HGate')), 3),
+        wrap('PowerGate', wrap('ControlledGate', D('RYGate'), 1, [3], [2]), 0),
+        wrap('PowerGate', wrap('ControlledGate', D('RYGate'), 1, [4]), 0),
+        wrap('PowerGate', wrap('ControlledGate', D('RYGate'), 1, [3], [2]), 2),
+    ]
     return ds
+
+
+def random_composed(ctx, count):
+    """random nested compositions (depth 1-3) with valid arguments, dimension <= 36."""
+    rng = ctx.rng
+    bases = [D('U3Gate'), D('RXGate'), D('RYGate'), D('RZGate'), D('U2Gate'), D('U1qGate'), D('HGate'), D('XGate'),
+             D('TGate'), D('SqrtXGate'), D('PhasedXZGate'), D('CNOTGate'), D('CRYGate'), D('CRZGate'), D('RZZGate'),
+             D('RXXGate'), D('FSIMGate'), D('CUGate'), D('CPGate'), D('ISwapGate'), D('HGate', 3), D('ShiftGate', 3),
+             D('ClockGate', 3), D('U8Gate'), D('RSU3Gate', 1), D('RSU3Gate', 5), D('PDGate', 2, 3), D('HGate', 4),
+             D('ShiftGate', 5), D('MPRYGate', 2), D('MPRZGate', 2, 0), D('DiagonalGate', 2), D('PauliZGate', 2),
+             D('ArbitraryCPhaseGate', [3, 3]), D('CSUMGate', 3), D('SwapGate', 3), D('SubSwapGate', 3, '0,1;2,2')]
+    vals = [0.0, PI / 2, PI, -PI / 4, 1.5, -0.75, 2.25, 0.3, -2.7, 7.0]
+    out = []
+    tries = 0
+    while len(out) < count and tries < 20 * count:
+        tries += 1
+        d = rng.choice(bases)
+        try:
+            for _ in range(rng.randint(1, 3)):
+                g = build(d)
+                rx, npar, dim = list(g.radixes), g.num_params, g.dim
+                kind = rng.choice(['ctrl', 'ctrl', 'dagger', 'power', 'frozen', 'embedded', 'tagged'])
+                if kind == 'ctrl':
+                    nc = rng.choice([1, 1, 2])
+                    cr = [rng.choice([2, 2, 3, 4]) for _ in range(nc)]
+                    if int(np.prod(cr)) * dim > 36:
+                        continue
+                    form = rng.randrange(4)
+                    if form == 0:
+                        d = wrap('ControlledGate', d, nc, cr)
+                    elif form == 1:
+                        d = wrap('ControlledGate', d, nc, cr, [rng.randrange(r) for r in cr])
+                    elif form == 2:
+                        d = wrap('ControlledGate', d, nc, cr, [sorted(rng.sample(range(r), rng.randint(1, r))) for r in cr])
+                    else:
+                        r0 = rng.choice([2, 3])
+                        if r0 ** nc * dim > 36:
+                            continue
+                        d = wrap('ControlledGate', d, nc, r0, rng.randrange(r0))
+                elif kind == 'dagger':
+                    d = wrap('DaggerGate', d)
+                elif kind == 'tagged':
+                    d = wrap('TaggedGate', d, rng.choice(['t', 3, 'x y']))
+                elif kind == 'power':
+                    d = wrap('PowerGate', d, rng.randint(-3, 3))
+                elif kind == 'frozen':
+                    if npar == 0:
+                        continue
+                    sub = rng.sample(range(npar), rng.randint(1, npar))
+                    d = frozen(d, {k: rng.choice(vals) for k in sub})
+                else:
+                    big = [r + rng.choice([0, 1, 1, 2]) for r in rx]
+                    if int(np.prod(big)) > 36:
+                        continue
+                    maps = [rng.sample(range(b), r) for b, r in zip(big, rx)]
+                    d = wrap('EmbeddedGate', d, big, maps)
+            npow = 0
+            x = d
+            while 'inner' in x:
+                npow += x['cls'] == 'PowerGate'
+                x = x['inner']
+            if 'inner' in d and npow <= 1 and not tainted(d) and build(d).dim <= 36:
+                out.append(d)
+        except Exception:  # noqa  (generator bug, not an implementation failure: skip)
+            continue
+    return out
 
 
 def _radixes_of(d):
@@ -392,10 +552,16 @@ class Checker:
 
     # -- reporting ------------------------------------------------------------------
     def bad(self, d, clause, p, expected, observed, what, extra=None):
+        sd = d
         sig = {'gate': d['cls'], 'clause': clause}
-        if 'inner' in d:
-            sig['base'] = root_cls(d)
-        ic = input_class(d)
+        if clause in ('optimize', 'optimize_raises'):
+            sd = optimize_owner(d)
+            sig['gate'] = sd['cls']
+            if sd is not d:
+                sig['via'] = d['cls']
+        if 'inner' in sd:
+            sig['base'] = root_cls(sd)
+        ic = input_class(sd)
         if ic:
             sig['input'] = ic
         case = {'desc': d, 'params': None if p is None else [float(x) for x in p], 'clause': clause}
@@ -502,6 +668,12 @@ class Checker:
                                      'transcribed gradient differs from get_grad', dict(entry=_argmax(MG[:, k] - gk)))
                             break
 
+        # ---- gradient of a constant gate: empty along the parameter axis
+        if differentiable and np_ == 0:
+            gk = grads[0]
+            if len(gk) != 0:
+                self.bad(d, 'grad_shape', P[0], 'empty gradient (0 parameters)', list(gk.shape),
+                         'get_grad of a constant gate is not empty along the parameter axis')
         # ---- (b) gradient vs central finite differences; get_unitary_and_grad
         if differentiable and np_ > 0:
             for p, U, gk in zip(P, Un, grads):
@@ -530,7 +702,7 @@ class Checker:
                     self.bad(d, 'uag', p, 'a pair', f'{type(e).__name__}: {e}', 'get_unitary_and_grad raises')
                     break
                 g2 = np.asarray(g2)
-                ok = np.abs(np.asarray(U2) - U).max() <= 1e-13 * scale
+                ok = np.abs(np.asarray(U2) - U).max() <= 1e-13 * scale and tuple(getattr(U2, 'radixes', g.radixes)) == tuple(g.radixes)
                 if np_ > 0:
                     ok = ok and g2.shape == gk.shape and np.abs(g2 - gk).max() <= 1e-12 * scale * (1 + np.abs(gk).max())
                 if not ok:
@@ -813,6 +985,45 @@ def check_distinct(ck: Checker):
                    'gates with different construction arguments (different unitaries) compare equal', dict(other=b))
 
 
+def check_equivalent_args(ck: Checker):
+    """the same constructor call written with defaults / keywords must give equal gates, equal hashes."""
+    from bqskit.utils.cachedclass import CachedClass
+    pairs = [
+        (D('HGate'), D('HGate', 2)), (D('HGate', 3), D('HGate', radix=3)), (D('ShiftGate'), D('ShiftGate', 2)),
+        (D('ClockGate'), D('ClockGate', 3)), (D('PDGate', 1), D('PDGate', 1, 3)), (D('PDGate', 1, 4), D('PDGate', 1, radix=4)),
+        (D('SwapGate'), D('SwapGate', 2)), (D('SwapGate', 3), D('SwapGate', radix=3)), (D('CSUMGate'), D('CSUMGate', 3)),
+        (D('DiagonalGate'), D('DiagonalGate', 2)), (D('MPRYGate', 2), D('MPRYGate', 2, 1)), (D('MPRZGate', 3), D('MPRZGate', 3, 2)),
+        (D('RSU3Gate', 1), D('RSU3Gate', index=1)), (D('IdentityGate'), D('IdentityGate', 1)),
+        (D('IdentityGate', 2), D('IdentityGate', 2, [2, 2])), (D('ArbitraryCPhaseGate'), D('ArbitraryCPhaseGate', [2, 2])),
+        (D('PauliZGate', 2), D('PauliZGate', num_qudits=2)), (D('PauliGate', 1), D('PauliGate', num_qudits=1)),
+        (D('VariableUnitaryGate', 1), D('VariableUnitaryGate', 1, [2])),
+        (wrap('PowerGate', D('U3Gate')), wrap('PowerGate', D('U3Gate'), 1)),
+        (wrap('ControlledGate', D('U3Gate')), wrap('ControlledGate', D('U3Gate'), 1, 2, [[1]])),
+        (wrap('ControlledGate', D('U3Gate'), 2, 3), wrap('ControlledGate', D('U3Gate'), 2, [3, 3], [2, 2])),
+        (wrap('EmbeddedGate', D('XGate'), 3), wrap('EmbeddedGate', D('XGate'), [3], [[0, 1]])),
+        (frozen(D('U3Gate'), {0: 1.0, 2: 2.0}), frozen(D('U3Gate'), {2: 2.0, 0: 1.0})),
+    ]
+    for a, b in pairs:
+        try:
+            ga, gb = build(a), build(b)
+        except Exception:  # noqa
+            continue
+        ck.ctx.count('equivalent_arg_pairs')
+        ck.ctx.case(('equiv', vf.canon(a), vf.canon(b)))
+        try:
+            same = (ga == gb) and (gb == ga) and hash(ga) == hash(gb)
+        except Exception as e:  # noqa
+            same = False
+        if not same:
+            own_eq = type(ga).__eq__ is not object.__eq__
+            sig_in = 'class_defines_eq' if own_eq else ('cached_class_identity_eq' if isinstance(ga, CachedClass) else 'no_eq')
+            ck.ctx.count('fail_eq_equivalent_args')
+            ck.ctx.violation({'gate': a['cls'], 'clause': 'eq_equivalent_args', 'input': sig_in},
+                             dict(desc=a, other=b, clause='eq_equivalent_args'), 'equal gates, equal hashes',
+                             dict(eq=bool(ga == gb), hash_eq=hash(ga) == hash(gb)),
+                             'the same constructor call written with default / keyword arguments gives unequal gates')
+
+
 # ----------------------------------------------------------------------------------------
 def exported_classes():
     g = G()
@@ -824,7 +1035,7 @@ def exported_classes():
 
 
 def all_descs(ctx, fixed_names):
-    return base_grid(ctx, fixed_names), composed_grid(ctx), malformed_grid()
+    return base_grid(ctx, fixed_names), composed_grid(ctx) + random_composed(ctx, ctx.n(60, 2500)), malformed_grid()
 
 
 def run_descs(ctx, ck: Checker, ds, npts):
@@ -885,6 +1096,7 @@ def run(ctx: vf.Ctx):
     run_descs(ctx, ck, bad, 4)
     check_qiskit(ck)
     check_distinct(ck)
+    check_equivalent_args(ck)
     # catalogue: every exported name is either checked, or listed with the reason
     exp = exported_classes()
     missing = {}
@@ -924,3 +1136,5 @@ def replay(ctx: vf.Ctx, data):
         check_qiskit(ck)
     if case.get('clause') == 'eq_distinct':
         check_distinct(ck)
+    if case.get('clause') == 'eq_equivalent_args':
+        check_equivalent_args(ck)
